@@ -8,7 +8,7 @@ from .. import fsmon, model, sig, syncgen
 PROP = "C13"
 LEVEL = "exploration"
 MONITORS = ["source_readonly", "jobs_present", "missing_files_copied", "dst_only_files_kept", "dst_only_keys_kept",
-            "idempotent", "no_recursion_unless_asked"]
+            "idempotent", "no_recursion_unless_asked", "resync_after_removal"]
 RULE = (
     "Project pairs over a small universe (0-4 jobs per side from 4 state points, overlapping/disjoint; files "
     "identical / differing / same-size-same-mtime-different-content / one-sided, nested directories two levels "
@@ -194,6 +194,36 @@ def run_case(ctx, case):
         ctx.violation("second-sync-changes-destination", "repeating the same sync changed the destination",
                       {"diff": model.snap_diff(d_after, d_again), "opts": opts, "second_raised": repr(err2)})
         return
+    # the destination loses one of the synchronised jobs (its user removes it) and the same two handles synchronise
+    # again: the job is back with its state point, however stale the handles' caches are by now
+    if src_keys and len(case["entry"]) % 2 == 0 or src_keys and len(src_keys) > 2:
+        import json
+
+        key = src_keys[0]
+        jid = model.model_id(syncgen.sp_of(key))
+        gone = False
+        try:
+            D.open_job(id=jid).remove()
+            gone = True
+        except Exception:
+            pass
+        if gone:
+            err3 = syncgen.call_sync(D, S, opts, [], [], entry=case["entry"])
+            if err3 is None:
+                ctx.monitor("resync_after_removal")
+                fn = os.path.join(D.path, "workspace", jid, model.SP_FILE)
+                ok = os.path.isfile(fn)
+                if ok:
+                    try:
+                        ok = model.typed_eq(model.read_json(fn), syncgen.sp_of(key))
+                    except Exception:
+                        ok = False
+                if not ok:
+                    ctx.violation("job-missing-in-destination", "after removing a job from the destination, synchronising again did not bring it back with its state point",
+                                  {"job": key, "listing": sorted(os.listdir(os.path.join(D.path, "workspace", jid)))
+                                   if os.path.isdir(os.path.join(D.path, "workspace", jid)) else None, "opts": opts,
+                                   "entry": case["entry"], "resync_after_removal": True})
+                    return
     if copied or kept:
         ctx.distinct("nontrivial", case)
     ctx.sample({"opts": opts, "src_jobs": sorted(src_spec["jobs"]), "dst_jobs": sorted(dst_spec["jobs"]),
